@@ -57,28 +57,46 @@ def labels(st, p):
     return out
 
 
+def head_vids(p):
+    """identities (vids) of the distinguished coefficients of an integer polynomial value"""
+    c = p.f[0] if type(p) is Ag and len(p.f) == 1 else p
+    if type(c) is not Sq or not c.head:
+        return None
+    out = []
+    for i in sorted(c.head):
+        x = c.head[i]
+        while type(x) is Ag and len(x.f) == 1:
+            x = x.f[0]
+        out.append(x.vid if type(x) is I else None)
+    return out
+
+
 def want_labels(lab, n=NN):
     return [frozenset({f"{lab}[{i}]"}) for i in range(n)]
 
 
-def clause_gates(R):
+def clause_gates(R, long_probes=True):
     S = Session()
     ctx = S.ctx
     ctx.hooks["exact_collect_max"] = 8
     ctx.hooks["exact_anyall"] = True
     ctx.hooks["may_panic"] = lambda inst: False
     usz, u32, i16, i32 = ctx.usize_ty(), S.ty("u32"), S.ty("i16"), S.ty("i32")
-    calls = []
+    calls, ident = [], []
     cfg = {"ntt": ("nz", "nz"), "gamma": 1000.0, "gen": 0}
 
     def m_gen_poly(E, st, fr, bi, callee, args, dest_ty):
         cfg["gen"] += 1
-        if cfg["gen"] > 6:
-            raise Diverge()            # three trips round the retry loop are enough to see where it goes
+        if cfg["gen"] > cfg.get("gen_max", 6):
+            raise Diverge()            # eight trips round the retry loop: enough for loop-carried state (a retry counter) to be widened and show its effect on the gates
         k = "f" if cfg["gen"] % 2 == 1 else "g"
         if not E.ctx.quiet:
             calls.append(("gen_poly", k, st.itv[args[0].vid]))
-        return ret1(ipoly(S, st, k, i16, -32768, 32767), st)
+        pl = ipoly(S, st, k, i16, -32768, 32767)
+        cfg.setdefault("cur", {})[k] = head_vids(pl)
+        if k == "g":
+            cfg.setdefault("trips", []).append([cfg["cur"].get("f"), cfg["cur"].get("g")])
+        return ret1(pl, st)
 
     def m_ntt(E, st, fr, bi, callee, args, dest_ty):
         v = E.load(st, args[0].key, args[0].proj)
@@ -92,11 +110,13 @@ def clause_gates(R):
     def m_gs(E, st, fr, bi, callee, args, dest_ty):
         if not E.ctx.quiet:
             calls.append(("gs", [labels(st, E.load(st, a.key, a.proj)) for a in args]))
+            ident.append(("gs", sorted(map(str, [head_vids(E.load(st, a.key, a.proj)) for a in args])) == sorted(map(str, [cfg["cur"].get("f"), cfg["cur"].get("g")]))))
         return ret1(Fl(cfg["gamma"], cfg["gamma"], False, "gamma"), st)
 
     def m_solve(E, st, fr, bi, callee, args, dest_ty):
         if not E.ctx.quiet:
             calls.append(("solve", [labels(st, a) for a in args]))
+            ident.append(("solve", [head_vids(a) for a in args] == [cfg["cur"].get("f"), cfg["cur"].get("g")]))
         big = ipoly(S, st, "F", i32, -2 ** 31, 2 ** 31 - 1), ipoly(S, st, "G", i32, -2 ** 31, 2 ** 31 - 1)
         for nm, pl in zip(("F", "G"), big):
             for i in range(NN):
@@ -119,6 +139,8 @@ def clause_gates(R):
     def go(ntt, gamma):
         cfg["ntt"], cfg["gamma"], cfg["gen"] = ntt, gamma, 0
         del calls[:]
+        del ident[:]
+        cfg["trips"] = []
         st = St()
         rng = S.cell(st, "rng", Md("rng", {"origin": "param", "site": None}), mut=True)
         outs = S.run(ng, [ctx.const_int(st, NN, usz), rng], st)
@@ -142,6 +164,11 @@ def clause_gates(R):
             R.check(nt and nt[0][1] == want_labels("f"), "C04-flow", "ntru_gen -> NTT", "the invertibility test looks at the NTT of f (first sampled polynomial), coefficient order unchanged", f"NTT input labels {nt[0][1] if nt else None}", key="flow|ntt")
             R.check(gs and sorted(map(str, gs[0][1])) == sorted(map(str, [want_labels("f"), want_labels("g")])), "C04-flow", "ntru_gen -> gram_schmidt_norm_squared", "the norm test gets f and g", f"arguments {gs[0][1] if gs else None}", key="flow|gs")
             R.check(sv and sv[0][1] == [want_labels("f"), want_labels("g")], "C04-flow", "ntru_gen -> ntru_solve_entrypoint", "the solver gets (f, g), the tested polynomials", f"arguments {sv[0][1] if sv else None}", key="flow|solve")
+            # the very same values, not only values derived from them: the polynomials that pass the two tests are the ones
+            # solved for and returned (a coefficient "nudged" between the norm test and the solver keeps its label)
+            R.check(bool(ident) and all(ok_ for _, ok_ in ident), "C04-flow", "ntru_gen: identity of (f, g)",
+                    "the coefficients handed to the norm test and to the solver are the sampled values themselves (unmodified in between)",
+                    f"a coefficient of f or g is modified between sampling and {[w for w, ok_ in ident if not ok_][:1]}: the tests were made on other values than the ones used", key="flow|ident")
             okr = True
             for r, s2 in outs:
                 okr = okr and type(r) is Ag and len(r.f) == 4 and [labels(s2, x) for x in r.f] == [want_labels("f"), want_labels("g"), want_labels("F"), want_labels("G")]
@@ -171,9 +198,16 @@ def clause_gates(R):
                     whyn, key="narrow")
     # 1b Gram-Schmidt gate
     for gamma, want, nm in ((thr * (1 - 1e-9), True, "just below"), (thr * (1 + 1e-9), False, "just above"), (0.0, True, "zero"), (math.inf, False, "infinite")):
+        # the rejecting probes follow the retry loop for 1100 trips (the run is exact and cheap: every callee is a stand-in), so
+        # that a gate which gives way after N rejections ("termination safeguard") is seen for every N up to 1100
+        cfg["gen_max"] = 6 if (want or not long_probes) else 2200
+        ctx.path_budget, saved_pb = 10 ** 8, ctx.path_budget
+        ctx.path_mode_fns = (lambda inst: inst is ng) if not want else None
         outs, cl = go(("nz", "nz"), gamma)
+        ctx.path_mode_fns, ctx.path_budget = None, saved_pb
+        cfg["gen_max"] = 6
         reach = any(c[0] == "solve" for c in cl)
-        R.check(reach == want, "C04-gate", f"ntru_gen: gamma {nm} 1.17^2 q = {thr:.4f}", "accepted" if want else "rejected (retry)",
+        R.check(reach == want, "C04-gate", f"ntru_gen: gamma {nm} 1.17^2 q = {thr:.4f}", "accepted" if want else f"rejected (retry), in each of {sum(1 for c in cl if c[0] == 'gs')} consecutive trips round the loop",
                 f"gamma = {gamma} is {'accepted' if reach else 'rejected'}: the Gram-Schmidt bound applied is not 1.17^2 q", key=f"gate|gs|{nm}")
     # the constant side of the comparison, whichever side it is written on
     consts = []
@@ -184,6 +218,70 @@ def clause_gates(R):
     R.check(consts and all(abs(c - thr) <= 1e-9 * thr for c in consts), "C04-const", "ntru_gen threshold", f"gamma is compared with {consts[0] if consts else '?'} = 1.3689 q",
             f"comparisons: {[(f[0], f[3], f[4]) for f in fc[:3]]}", key="const|thr")
     R.analysed.setdefault("unsupported", []).extend(S.unsupported[:5])
+
+
+def clause_basis(R):
+    """gen_b0 hands out [g, -f, G, -F] of ONE call of ntru_gen: ntru_gen is replaced by a stand-in whose k-th call returns four
+    polynomials with coefficients labelled (call site, role, index); in every returned basis the four polynomials carry one
+    and the same call site and the roles g, f, G, F in this order, position by position. (A retry that keeps f, g of one attempt and takes F, G
+    from the next returns a basis with f G - g F != q.)"""
+    import re
+    from . import skeleton
+    for N in (512, 1024):
+        sk = skeleton.session()
+        ctx = sk.ctx
+        i16, usz = sk.ty("i16"), ctx.usize_ty()
+        K = 2
+        ncall = [0]
+
+        def m_ntru_gen(E, st, fr, bi, callee, args, dest_ty):
+            ncall[0] += 1
+            if ncall[0] > 200:
+                raise Diverge()
+            k = (fr.inst.name.split("::")[-1], bi)          # the call site: stable across the passes of the fixpoint iteration
+
+            def pol(role):
+                heads = {i: ctx.top_int(st, i16, taint=frozenset({(k, role, i)})) for i in range(K)}
+                return Ag((Sq(ctx.top_int(st, i16, taint=frozenset({(k, role, "*")})), ctx.const_int(st, K, usz), heads),))
+            return [(Ag(tuple(pol(r) for r in ("f", "g", "F", "G"))), st)]
+        ctx.models.table[:0] = [(re.compile(r"^falcon_rust::math::ntru_gen$"), m_ntru_gen)]
+        ctx.models.cache.clear()
+        ctx.hooks["exact_collect_max"] = 8
+        ctx.hooks["exact_anyall"] = True
+        ctx.hooks["unroll"] = lambda fr, h: 8 if fr.inst.local else 0
+        ctx.hooks["split_bool_ret"] = lambda inst: inst.local
+        gb = sk.find(f"falcon::SecretKey::<{N}>::gen_b0")
+        st = St()
+        seed = Sq(ctx.top_int(st, sk.ty("u8"), taint=True), ctx.const_int(st, 32, usz))
+        outs = sk.run(gb, [seed], st)
+        site = f"gen_b0::<{N}>"
+        ok, why = bool(outs), "no return found in the abstract run"
+        for r, rst in outs:
+            if type(r) is not Sq or not r.head or len(r.head) != 4:
+                ok, why = False, "result is not an array of four polynomials"
+                break
+            roles = []
+            for j in range(4):
+                sq = r.head[j].f[0] if type(r.head[j]) is Ag and type(r.head[j].f[0]) is Sq else None
+                labs = set()
+                for i in range(K):
+                    h = sq.head.get(i) if sq is not None and sq.head else None
+                    t = rst.taint.get(h.vid) if type(h) is I else None
+                    labs |= {(l[0], l[1]) for l in (t or ()) if isinstance(l, tuple) and len(l) == 3 and l[2] == i} if t else {("?", "?")}
+                roles.append(labs)
+            want = ["g", "f", "G", "F"]
+            rl = [{r_ for _, r_ in x} for x in roles]
+            if not all(len(x) == 1 for x in rl) or [next(iter(x)) for x in rl] != want:
+                ok, why = False, f"returned polynomials have the roles {[sorted(x) for x in rl]}, expected [g, f, G, F] position by position"
+                break
+            sites_ = [frozenset(c for c, _ in x) for x in roles]
+            if len(set(sites_)) != 1:
+                # several call sites are fine (a first attempt before the loop, retries inside it) as long as all four
+                # polynomials can come from the same ones: f from {A} with F from {A, B} means F, G were replaced alone
+                ok, why = False, f"the returned basis mixes the results of different ntru_gen calls: call sites per polynomial {[sorted(map(str, x)) for x in sites_]}"
+                break
+        R.check(ok, "C04-basis", site, "the returned basis is [g, -f, G, -F] of one and the same ntru_gen call, coefficient by coefficient", why, key=f"basis|{N}")
+    R.floor("gen_b0 variants analysed", 2, 2)
 
 
 def clause_gen_poly(R):
@@ -421,6 +519,7 @@ def run(R):
     R.assume("f G - g F = q for the solver's output, h f = g mod q and the numerical leaf range are NOT decided")
     clause_gates(R)
     clause_gen_poly(R)
+    clause_basis(R)
     clause_gs_norm(R)
     clause_public_key(R)
     S = c10.session()
